@@ -11,7 +11,7 @@ import warnings
 from sim import canon, common, gen, iters, seams
 from sim import shrink as shr
 from sim.common import Stats
-from sim.sched import Steps, StepBudgetExceeded
+from sim.sched import Steps, StepBudgetExceeded, WallBudgetExceeded, WallGuard
 
 ID = "C08"
 LEVEL = "fault_enumeration"
@@ -40,7 +40,7 @@ COMPONENTS = {
     "stub": ["file system (SimDisk)", "raw file object (SimRawW)", "caller iterable (TrackedFrames)"],
 }
 
-ERRS = ["ENOSPC", "EIO", "EDQUOT", "EPIPE", "EFBIG", "EROFS"]
+ERRS = ["ENOSPC", "EIO", "EDQUOT", "EPIPE", "EFBIG", "EROFS", "E524"]
 PRE = "PRE-EXISTING CONTENT\nline two\n"
 
 # (format, filename for pattern selection | None, [object recipes])
@@ -139,7 +139,9 @@ def gen_workload(rng, tier):
          "knobs": {"buffer_size": rng.choice([1, 16, 128, 1024, 8192, 8192, 65536]),
                    "chunk_size": rng.choice([None, None, 64, 1024]),
                    # environment knob: the caller runs with warnings promoted to errors (python -W error)
-                   "warnings": "error" if rng.random() < 0.12 else "always", "pathlib": rng.random() < 0.1}}
+                   "warnings": "error" if rng.random() < 0.12 else "always", "pathlib": rng.random() < 0.1,
+                   # the caller is not the thread that imported the library (thread pool, GUI worker)
+                   "in_thread": rng.random() < 0.1}}
     sel = rng.choices(["name", "explicit", "unknown", "unsupported"], [5, 4, 1, 1])[0]
     if op == "write_input":
         w["fmt"] = rng.choice(["gaussian", "orca"])
@@ -195,6 +197,8 @@ def gen_workload(rng, tier):
         else:
             objs = _frame_recipes(rng, fmt, n)
         w["iter_kind"] = rng.choice(["list", "gen", "gen", "iterobj", "gen_raise", "gen_reentrant"])
+        if w["iter_kind"] == "gen_reentrant":
+            w["knobs"]["in_thread"] = False  # the wall guard against self-deadlocks works in the main thread only
         if w["iter_kind"] == "gen_raise":
             w["raise_at"] = rng.randint(0, n)
     w["objs"] = objs
@@ -336,6 +340,26 @@ def _call(w, objs, disk, tracker_box):
     return iodata.dump_many(it, path, fmt=fmt_arg, allow_changes=w["allow_changes"])
 
 
+def _in_thread(fn):
+    """Run fn in a fresh thread and hand back its result / exception."""
+    import threading
+
+    box = {}
+
+    def body():
+        try:
+            box["r"] = fn()
+        except BaseException as exc:  # noqa: BLE001
+            box["e"] = exc
+
+    t = threading.Thread(target=body, name="caller-thread", daemon=True)
+    t.start()
+    t.join()
+    if "e" in box:
+        raise box["e"]
+    return box.get("r")
+
+
 def run_once(w, faults, budget=None):
     """Execute the API call of workload w under the given write-side faults.  Returns a record."""
     knobs = w.get("knobs", {})
@@ -360,10 +384,17 @@ def run_once(w, faults, budget=None):
     tracker_box = []
     rec = {"exc": None, "result_is_arg": None, "warnings": [], "steps": 0}
     werr = knobs.get("warnings") == "error"
-    with seams.Installed(disk), warnings.catch_warnings(record=True) as wlist, Steps(budget) as st:
+    import contextlib
+
+    # re-entrant use of the API (a producer that itself calls the library): a self-deadlock must become a verdict
+    guard = WallGuard(8.0) if w.get("iter_kind") == "gen_reentrant" and not knobs.get("in_thread") else contextlib.nullcontext()
+    with seams.Installed(disk), warnings.catch_warnings(record=True) as wlist, Steps(budget) as st, guard:
         warnings.simplefilter("error" if werr else "always")
         try:
-            result = _call(w, objs, disk, tracker_box)
+            if knobs.get("in_thread"):
+                result = _in_thread(lambda: _call(w, objs, disk, tracker_box))
+            else:
+                result = _call(w, objs, disk, tracker_box)
             rec["result_is_arg"] = bool(objs) and result is objs[0]
         except StepBudgetExceeded as exc:
             rec["exc"] = exc
@@ -410,8 +441,8 @@ def judge(trace, rec, base):
     def untouched():
         return rec["open_events"] == 0 and rec["bytes"] == pre_b
 
-    if isinstance(exc, StepBudgetExceeded):
-        out.append(_v("liveness", f"step budget exceeded: {exc}", trace))
+    if isinstance(exc, (StepBudgetExceeded, WallBudgetExceeded)):
+        out.append(_v("liveness", f"the call did not return: {exc}", trace))
         return out
     if (w.get("knobs") or {}).get("warnings") == "error":
         # Warnings are errors in this run: a warning raised inside iodata is just another failure, so which
@@ -687,8 +718,8 @@ def run_task(task):
     if base["exc"] is None and w["op"] != "write_input" and not d:
         stats.add("valid_workloads", f"{w['op']}:{w['fmt']}")
     sample = None
-    # faults only where a file is actually written
-    if base["open_events"] and (base["ntext"] or base["nraw"]):
+    # faults only where a file is actually written (and the fault-free call returned at all)
+    if base["open_events"] and (base["ntext"] or base["nraw"]) and not isinstance(base["exc"], (StepBudgetExceeded, WallBudgetExceeded)):
         budget = max(20 * base["steps"], 2_000_000)
         for faults in _fault_positions(base, rng, tier):
             trace = {**copy.deepcopy(w), "faults": faults}
